@@ -1,4 +1,5 @@
 import Svgbob.Model.Doc
+import Svgbob.Gen.StyleSheet
 /-!
 # C18 — settings switches and entry points are consistent and leave geometry alone
 
@@ -112,5 +113,37 @@ end
 theorem compressed_ignores_indent (den : Nat) (n : Node) (i j : Nat) :
     Node.render den false i n = Node.render den false j n :=
   render_compressed_indent den n i j
+
+/-! ### the base style sheet, from the REGENERATED rules of the `jss!` block
+
+The sheet the model renders from `Gen.styleRules` and the settings is compared byte for byte with
+the implementation's on every run (driver mode `css`). -/
+
+/-- a rule none of whose declarations changes value is rendered the same -/
+theorem rule_ignores_unmentioned_settings (p p' : StyleParams) (r : String × List (String × StyleVal))
+    (h : ∀ d ∈ r.2, d.2.render p = d.2.render p') : renderRule p r = renderRule p' r := by
+  unfold renderRule
+  have hfm : ∀ l : List (String × StyleVal), (∀ d ∈ l, d.2.render p = d.2.render p') →
+      l.flatMap (fun d => [' ', ' '] ++ d.1.toList ++ [':', ' '] ++ d.2.render p ++ [';', '\n']) =
+      l.flatMap (fun d => [' ', ' '] ++ d.1.toList ++ [':', ' '] ++ d.2.render p' ++ [';', '\n']) := by
+    intro l hl
+    induction l with
+    | nil => rfl
+    | cons d ds ih =>
+      simp only [List.flatMap_cons]
+      rw [hl d (by simp), ih (fun x hx => hl x (List.mem_cons_of_mem _ hx))]
+  rw [hfm r.2 h]
+
+/-- a literal declaration does not depend on the settings at all -/
+theorem literal_ignores_settings (p p' : StyleParams) (s : String) :
+    (StyleVal.lit s).render p = (StyleVal.lit s).render p' := rfl
+
+/-- decided over the regenerated rules: every one of the six settings is named by some rule (a
+change of the setting is visible in the sheet), and no selector or property name is empty -/
+theorem every_setting_reaches_the_sheet :
+    [StyleVal.strokeColor, .strokeWidth, .background, .fillColor, .fontFamily, .fontSizePx].all
+      (fun v => Gen.styleRules.any fun r => r.2.any fun d => d.2 == v) = true ∧
+    Gen.styleRules.all (fun r => !r.1.isEmpty && r.2.all fun d => !d.1.isEmpty) = true := by
+  constructor <;> decide +kernel
 
 end Svgbob.C18
